@@ -249,13 +249,14 @@ pub const FAULTS: [&str; 8] = [
 
 pub const CONTAINERS: [&str; 10] = ["main", "IF block", "ELSE block", "FOR body", "WHILE body", "DO body", "CASE block", "SUB body", "FUNCTION body", "end of the module (subprograms follow)"];
 
-pub const HANDLERS: [&str; 6] = [
+pub const HANDLERS: [&str; 7] = [
     "no handler",
     "ON ERROR GOTO + RESUME (operand repaired)",
     "ON ERROR GOTO + RESUME NEXT",
     "ON ERROR GOTO + RESUME label",
     "ON ERROR RESUME NEXT",
     "handler enabled, then ON ERROR GOTO 0",
+    "ON ERROR GOTO, the handler itself fails before RESUME NEXT",
 ];
 
 fn failing(b: &mut B, fault: usize) -> Stmt {
@@ -293,7 +294,7 @@ pub fn fault_program(fault: usize, container: usize, position: usize, handler: u
         b.s(K::Dim {
             shared: true,
             redim: false,
-            vars: ["Z%", "K%", "IX%", "M%", "W%", "X%", "S$"].iter().map(|n| DimVar { name: n.to_string(), ty: None, dims: vec![] }).collect(),
+            vars: ["Z%", "K%", "IX%", "M%", "W%", "X%", "S$", "HQ%", "HZ%"].iter().map(|n| DimVar { name: n.to_string(), ty: None, dims: vec![] }).collect(),
         }),
         b.assign(var("Z%"), num(0)),
         b.assign(var("K%"), num(1)),
@@ -308,6 +309,9 @@ pub fn fault_program(fault: usize, container: usize, position: usize, handler: u
         if change_var {
             main.push(b.assign(var("W%"), bin(BinOp::Add, var("W%"), num(1))));
         }
+        if handler == 6 {
+            main.push(b.assign(var("HQ%"), bin(BinOp::Div, num(1), var("HZ%"))));
+        }
         if handler == 1 {
             main.push(b.assign(var("Z%"), num(2)));
             main.push(b.assign(var("K%"), num(0)));
@@ -320,7 +324,7 @@ pub fn fault_program(fault: usize, container: usize, position: usize, handler: u
         main.push(b.s(K::Label("Start".into())));
     }
     match handler {
-        1 | 2 | 3 => main.push(b.s(K::OnErrorGoto("H".into()))),
+        1 | 2 | 3 | 6 => main.push(b.s(K::OnErrorGoto("H".into()))),
         4 => main.push(b.s(K::OnErrorResumeNext)),
         5 => {
             main.push(b.s(K::OnErrorGoto("H".into())));
@@ -392,6 +396,9 @@ pub fn fault_program(fault: usize, container: usize, position: usize, handler: u
     if change_var {
         main.push(b.assign(var("W%"), bin(BinOp::Add, var("W%"), num(1))));
     }
+    if handler == 6 {
+        main.push(b.assign(var("HQ%"), bin(BinOp::Div, num(1), var("HZ%"))));
+    }
     match handler {
         1 => {
             // repair the operands so that the statement succeeds when re-executed
@@ -426,7 +433,7 @@ pub fn fault_cases() -> Vec<(usize, usize, usize, usize, bool)> {
             for position in 0..3 {
                 for handler in 0..HANDLERS.len() {
                     for change in [false, true] {
-                        if change && matches!(handler, 0 | 4 | 5) {
+                        if change && matches!(handler, 0 | 4 | 5 | 6) {
                             continue;
                         }
                         out.push((fault, container, position, handler, change));
